@@ -653,6 +653,163 @@ def lower_consumers(j, baseline, skip=()):
     return n
 
 
+def _closure_sig(fns, cp, depth=0):
+    """what a closure does, as the set of functions it calls (closures nested in it included): the identity of an adapter chain that
+    survives renumbering of closures and moving the chain to another function"""
+    cb = fns.get(cp)
+    out = set()
+    if cb is None or depth > 3:
+        return out
+    for b in cb['blocks']:
+        t = b['term']
+        if t['k'] == 'call' and not b.get('cleanup'):
+            d = t['func'].get('res') or t['func'].get('def') or ''
+            if '{closure' in d:
+                out |= _closure_sig(fns, d, depth + 1)
+            elif not d.startswith(('std::ops::', 'std::convert::', 'std::result::', 'std::option::', 'std::clone::')):
+                out.add(d.split('::')[-1])
+    return out
+
+
+def lower_effect_collect(j, baseline, skip=(), only_sigs=None):
+    """`it.map(closure).collect::<Result<Vec<T>, E>>()` where the closure captures a `&mut` (each element is produced by doing something:
+    absorbing into a transcript, advancing a cursor) becomes the loop it abbreviates:
+        v = Vec::new(); loop { match it.next() { None => break Ok(v), Some(x) => match closure(x) { Ok(y) => v.push(y), Err(e) => break Err(e) } } }
+    The chains the pinned tree itself is written with keep their form (they are recognised by what their closure calls, see
+    tools/mkbaseline.py): the rules read those as terms; a chain that is new is read as the loop."""
+    fns = {f['path']: f for f in j['fns'] if f['label'] == 'fn'}
+    keep = {tuple(x) for x in (baseline or {}).get('effect_collects', [])}
+    n = 0
+    for f in j['fns']:
+        if f['label'] != 'fn' or f['path'].split('::{closure')[0] in skip:
+            continue
+        closure_of = {}
+        defs = {}
+        for b in f['blocks']:
+            for s_ in b['stmts']:
+                if s_['k'] == 'assign' and not s_['place']['p'] and s_['rv']['k'] == 'aggregate' and s_['rv']['kind'].get('a') == 'closure':
+                    closure_of[s_['place']['l']] = (s_['rv']['kind']['path'], s_['rv']['ops'])
+            t = b['term']
+            if t['k'] == 'call' and not t['dest']['p'] and not b.get('cleanup'):
+                defs.setdefault(t['dest']['l'], []).append(b)
+        for bc in list(f['blocks']):
+            t = bc['term']
+            if t['k'] != 'call' or bc.get('cleanup') or t['func'].get('def') != 'std::iter::Iterator::collect' or len(t['args']) != 1 or t.get('target') is None or t['dest']['p']:
+                continue
+            g = t['func'].get('gargs', [])
+            if len(g) != 2:
+                continue
+            head, rargs = _generic_args(g[1])
+            if head != 'std::result::Result' or len(rargs) != 2 or not rargs[0].startswith('std::vec::Vec<'):
+                continue
+            tvec, terr = rargs
+            telem = _generic_args(tvec)[1][0]
+            m = t['args'][0]
+            if m.get('k') != 'move' or m['place']['p'] or len(defs.get(m['place']['l'], [])) != 1:
+                continue
+            bm = defs[m['place']['l']][0]
+            tm = bm['term']
+            if tm['func'].get('def') != 'std::iter::Iterator::map' or len(tm['args']) != 2 or tm.get('target') != bc['i']:
+                continue
+            if any(s_['k'] == 'assign' for s_ in bc['stmts']):
+                continue
+            it, cl = tm['args']
+            if it.get('k') not in ('move', 'copy') or it['place']['p'] or cl.get('k') not in ('move', 'copy') or cl['place']['p'] or cl['place']['l'] not in closure_of:
+                continue
+            cp, cops = closure_of[cl['place']['l']]
+            cb = fns.get(cp)
+            if cb is None or cb.get('kind') != 'Closure' or cb['argc'] != 2:
+                continue
+            if not any(o.get('k') in ('move', 'copy') and o['place'].get('ty', '').startswith('&mut ') for o in cops):
+                continue
+            if only_sigs is not None:
+                only_sigs.add(tuple(sorted(_closure_sig(fns, cp))))
+                continue
+            if tuple(sorted(_closure_sig(fns, cp))) in keep:
+                continue
+            tres = cb['locals'][0]['ty']
+            h2, r2 = _generic_args(tres)
+            if h2 != 'std::result::Result' or len(r2) != 2:
+                continue
+            tit = it['place']['ty']
+            titem = cb['locals'][2]['ty']
+            tcl = cl['place']['ty']
+            line = tm.get('span', {}).get('l0', 0)
+            span = tm.get('span')
+            unwind = 'Continue'
+            f.setdefault('orig_nlocals', len(f['locals']))
+
+            def newlocal(ty):
+                f['locals'].append({'i': len(f['locals']), 'ty': ty, 'name': None, 'mut': True})
+                return len(f['locals']) - 1
+
+            def pl(l, ty):
+                return {'l': l, 'p': [], 'ty': ty}
+
+            def adt(path, variant, vidx, fields, ops):
+                return {'k': 'aggregate', 'kind': {'a': 'adt', 'path': path, 'variant': variant, 'vidx': vidx, 'fields': fields, 'union_field': -1}, 'ops': ops}
+
+            def asg(place, rv):
+                return {'k': 'assign', 'place': place, 'rv': rv, 'line': line}
+
+            def ext(defn, krate, gargs):
+                return {'def': defn, 'krate': krate, 'local': False, 'gargs': gargs, 'trait': '', 'res': defn, 'res_krate': krate, 'res_local': False, 'res_kind': 'Item'}
+            dest = copy.deepcopy(t['dest'])
+            cont = t['target']
+            topt = 'std::option::Option<%s>' % titem
+            ttup = '(%s,)' % titem
+            tmi = '&mut %s' % tit
+            tmv = '&mut %s' % tvec
+            lvec, lit, lref, lnx, ld, litem, ltup, lr, lcr = (newlocal(tvec), newlocal(tit), newlocal(tmi), newlocal(topt), newlocal('isize'), newlocal(titem),
+                                                            newlocal(ttup), newlocal(tres), newlocal('&mut %s' % tcl))
+            ld2, lpay, lvr, lunit, le = newlocal('isize'), newlocal(telem), newlocal(tmv), newlocal('()'), newlocal(terr)
+            nbk = len(f['blocks'])
+            b_new, b_head, b_sw, b_body, b_after, b_done, b_un, b_ok, b_bad = range(nbk, nbk + 9)
+            bm['stmts'].append(asg(pl(lit, tit), {'k': 'use', 'op': copy.deepcopy(it)}))
+            bm['term'] = {'k': 'goto', 'target': b_new}
+            bc['stmts'] = []
+            bc['term'] = {'k': 'unreachable'}
+            f['blocks'].append({'i': b_new, 'cleanup': False, 'stmts': [],
+                                'term': {'k': 'call', 'func': ext('std::vec::Vec::<T>::new', 'alloc', [telem]), 'args': [], 'dest': pl(lvec, tvec), 'target': b_head, 'unwind': unwind, 'span': span}})
+            nfunc = {'def': 'std::iter::Iterator::next', 'krate': 'core', 'local': False, 'gargs': [tit], 'trait': 'std::iter::Iterator',
+                     'res': 'std::iter::Iterator::next', 'res_krate': 'core', 'res_local': False, 'res_kind': 'Item'}
+            f['blocks'].append({'i': b_head, 'cleanup': False, 'stmts': [asg(pl(lref, tmi), {'k': 'ref', 'mut': True, 'place': pl(lit, tit)})],
+                                'term': {'k': 'call', 'func': nfunc, 'args': [{'k': 'move', 'place': pl(lref, tmi)}], 'dest': pl(lnx, topt), 'target': b_sw, 'unwind': unwind, 'span': span}})
+            f['blocks'].append({'i': b_sw, 'cleanup': False, 'stmts': [asg(pl(ld, 'isize'), {'k': 'discr', 'place': pl(lnx, topt)})],
+                                'term': {'k': 'switch', 'discr': {'k': 'move', 'place': pl(ld, 'isize')}, 'arms': [['0', b_done], ['1', b_body]], 'otherwise': b_un, 'span': span}})
+            pay = {'l': lnx, 'p': [{'k': 'downcast', 'variant': 'Some', 'i': 1}, {'k': 'field', 'i': 0, 'name': '0', 'ty': titem}], 'ty': titem}
+            ops = [{'k': 'move', 'place': pl(litem, titem)}]
+            cfunc = {'def': 'std::ops::FnMut::call_mut', 'krate': 'core', 'local': False, 'gargs': [], 'trait': 'std::ops::FnMut', 'res': cp,
+                     'res_krate': '', 'res_local': True, 'res_kind': 'Item'}
+            f['blocks'].append({'i': b_body, 'cleanup': False, 'stmts': [
+                asg(pl(litem, titem), {'k': 'use', 'op': {'k': 'move', 'place': pay}}),
+                asg(pl(ltup, ttup), {'k': 'aggregate', 'kind': {'a': 'tuple'}, 'ops': ops}),
+                asg(pl(lcr, '&mut %s' % tcl), {'k': 'ref', 'mut': True, 'place': pl(cl['place']['l'], tcl)})],
+                'term': {'k': 'call', 'func': cfunc, 'args': [{'k': 'move', 'place': pl(lcr, '&mut %s' % tcl)}, {'k': 'move', 'place': pl(ltup, ttup)}],
+                         'dest': pl(lr, tres), 'target': b_after, 'unwind': unwind, 'span': span, 'spread_ops': copy.deepcopy(ops)}})
+            f['blocks'].append({'i': b_after, 'cleanup': False, 'stmts': [asg(pl(ld2, 'isize'), {'k': 'discr', 'place': pl(lr, tres)})],
+                                'term': {'k': 'switch', 'discr': {'k': 'move', 'place': pl(ld2, 'isize')}, 'arms': [['0', b_ok], ['1', b_bad]], 'otherwise': b_un, 'span': span}})
+            f['blocks'].append({'i': b_done, 'cleanup': False, 'stmts': [asg(dest, adt('std::result::Result', 'Ok', 0, ['0'], [{'k': 'move', 'place': pl(lvec, tvec)}]))],
+                                'term': {'k': 'goto', 'target': cont}})
+            f['blocks'].append({'i': b_un, 'cleanup': False, 'stmts': [], 'term': {'k': 'unreachable'}})
+            okp = {'l': lr, 'p': [{'k': 'downcast', 'variant': 'Ok', 'i': 0}, {'k': 'field', 'i': 0, 'name': '0', 'ty': telem}], 'ty': telem}
+            f['blocks'].append({'i': b_ok, 'cleanup': False, 'stmts': [asg(pl(lpay, telem), {'k': 'use', 'op': {'k': 'move', 'place': okp}}),
+                                                                       asg(pl(lvr, tmv), {'k': 'ref', 'mut': True, 'place': pl(lvec, tvec)})],
+                                'term': {'k': 'call', 'func': ext('std::vec::Vec::<T, A>::push', 'alloc', [telem, 'std::alloc::Global']),
+                                         'args': [{'k': 'move', 'place': pl(lvr, tmv)}, {'k': 'move', 'place': pl(lpay, telem)}], 'dest': pl(lunit, '()'), 'target': b_head, 'unwind': unwind, 'span': span}})
+            errp = {'l': lr, 'p': [{'k': 'downcast', 'variant': 'Err', 'i': 1}, {'k': 'field', 'i': 0, 'name': '0', 'ty': terr}], 'ty': terr}
+            f['blocks'].append({'i': b_bad, 'cleanup': False, 'stmts': [asg(pl(le, terr), {'k': 'use', 'op': {'k': 'move', 'place': errp}}),
+                                                                        asg(copy.deepcopy(dest), adt('std::result::Result', 'Err', 1, ['0'], [{'k': 'move', 'place': pl(le, terr)}]))],
+                                'term': {'k': 'goto', 'target': cont}})
+            rl = f.setdefault('ret_locals', [])
+            for l_ in (lr, dest['l']):
+                if l_ not in rl:
+                    rl.append(l_)
+            f.setdefault('lowered_consumers', []).append(cp)
+            n += 1
+    return n
+
+
 def inline_new_helpers(j):
     """returns {'spliced': {caller: [callee..]}, 'removed': [..]}; mutates j"""
     baseline = load_baseline()
@@ -685,6 +842,7 @@ def inline_new_helpers(j):
         lower_and_then(j, baseline, skip)
         lower_map_transpose(j, baseline, skip | keep)
         lower_effect_map(j, baseline, skip | keep)
+        lower_effect_collect(j, baseline)
         lower_consumers(j, baseline, set(baseline.get('consumer_parents', [])))
     info = {'candidates': sorted(cands), 'spliced': {}, 'removed': []}
     fns = {f['path']: f for f in j['fns'] if f['label'] == 'fn'}
